@@ -2681,7 +2681,7 @@ def stream_history(run, tier, Q, tf, rng):
   run.extra["history_calls_judged"] = n_calls
   run.extra["history_objects_where_a_build_time_flag_would_differ"] = n_snap
   if n_snap < 20:
-    raise RuntimeError("stream H no longer reaches histories that distinguish a build-time decision from the code")
+    raise core.InfraError("stream H no longer reaches histories that distinguish a build-time decision from the code")
 
 
 # --------------------------------------------------------------------------- entry
